@@ -108,6 +108,15 @@ def generate(rng, tier):
     return cases
 
 
+def canonical(case, out):
+    """When the serialised text does not parse back (only outside the property's scope: kind api-outside), WHICH of
+    several unparsable lines is met first depends on the HashMap order of the type groups inside a name block, so
+    the error variant of the re-parse is not compared."""
+    if out.startswith("false,false#Err:"):
+        return "false,false#Err"
+    return out
+
+
 def oracle(case, impl, model):
     toks = case.split(" ")
     op = toks[1]
